@@ -711,6 +711,14 @@ mod os {
             let mut exec_fail_pipe = posix::pipe()?;
             set_inheritable(&exec_fail_pipe.0, false)?;
             set_inheritable(&exec_fail_pipe.1, false)?;
+            // The child rewrites descriptors 0-2.  In a process that runs with
+            // some of them closed (e.g. a daemon) the status pipe may have been
+            // allocated there, where the child would overwrite it and the
+            // failure report would be lost: move it out of the way.
+            exec_fail_pipe = (
+                posix::above_stdio(exec_fail_pipe.0)?,
+                posix::above_stdio(exec_fail_pipe.1)?,
+            );
             {
                 let child_ends = self.setup_streams(config.stdin, config.stdout, config.stderr)?;
                 let child_env = config.env.as_deref().map(format_env);
@@ -871,9 +879,8 @@ mod os {
                 posix::chdir(cwd)?;
             }
 
-            fn install(stream: Option<Rc<File>>, target: i32) -> io::Result<()> {
-                if let Some(stream) = stream {
-                    let fd = stream.as_raw_fd();
+            fn install(stream: Option<i32>, target: i32) -> io::Result<()> {
+                if let Some(fd) = stream {
                     if fd != target {
                         // the duplicate is not close-on-exec
                         posix::dup2(fd, target)?;
@@ -885,7 +892,21 @@ mod os {
                 }
                 Ok(())
             }
+            // A descriptor still to be installed must not be overwritten by
+            // an earlier dup2(): with descriptors 0-2 closed in the parent, the
+            // pipes meant for the child may have been allocated on them.
+            fn keep_clear(stream: &Option<Rc<File>>, below: i32) -> io::Result<Option<i32>> {
+                match stream.as_ref().map(|f| f.as_raw_fd()) {
+                    Some(fd) if fd < below => {
+                        Ok(Some(posix::fcntl(fd, posix::F_DUPFD_CLOEXEC, Some(3))?))
+                    }
+                    other => Ok(other),
+                }
+            }
             let (stdin, stdout, stderr) = child_ends;
+            let stdin = stdin.as_ref().map(|f| f.as_raw_fd());
+            let stdout = keep_clear(&stdout, 1)?;
+            let stderr = keep_clear(&stderr, 2)?;
             install(stdin, 0)?;
             install(stdout, 1)?;
             install(stderr, 2)?;
